@@ -1,7 +1,7 @@
 (* C14 -- the statement layer: every well-formed program outside the two known classes parses back, through the model of
    parser/stmt.rs, from the tokens the model of Stmt::write emits. *)
 From Coq Require Import List NArith Bool Arith Lia.
-From PV Require Import Lib.ListX Model.FmtLit Model.FmtPratt Model.Fmt Model.FmtStmt Proofs.FmtPrattProofs Proofs.FmtProofs.
+From PV Require Import Lib.ListX Model.FmtLit Model.FmtPratt Model.Fmt Model.FmtTy Model.FmtStmt Proofs.FmtPrattProofs Proofs.FmtProofs Proofs.FmtTyProofs.
 Import ListNotations.
 
 Set Warnings "-unused-intro-pattern".
@@ -71,6 +71,10 @@ Section StmtMono.
       destruct (B r2) as [[ss r3]|] eqn:E1; [|discriminate H]. rewrite (HB _ _ E1). exact H.
     - (* import *)
       destruct r1 as [|t1 r2]; [apply ML; exact H|]. exact H.
+    - (* type *)
+      destruct r1 as [|t1 r2]; [apply ML; exact H|].
+      destruct t1; try (apply ML; exact H).
+      destruct (p_ty n r2) as [[ty0 r3]|] eqn:E1; [|discriminate H]. rewrite (p_ty_mono n m _ _ Hle E1). exact H.
   Qed.
 
   Lemma p_stmts_mono P Q (L : ple P Q) : forall n m ts r, n <= m -> p_stmts T P n ts = Some r -> p_stmts T Q m ts = Some r.
@@ -285,10 +289,11 @@ Section StmtRoundTrip.
 
   Lemma stmt_ind2 (P : stmt -> Prop) :
     (forall a n v, P (SLet a n v)) -> (forall a v, P (SMain a v)) -> (forall a v n, P (SInto a v n)) ->
-    (forall a al p, P (SImport a al p)) -> (forall a n body, Forall P body -> P (SModule a n body)) -> forall s, P s.
+    (forall a al p, P (SImport a al p)) -> (forall a n t, P (STypeDef a n t)) ->
+    (forall a n body, Forall P body -> P (SModule a n body)) -> forall s, P s.
   Proof.
-    intros HL HM HI HP HMod. fix IH 1. intros [a n v|a v|a v n|a al p|a n body].
-    - apply HL. - apply HM. - apply HI. - apply HP.
+    intros HL HM HI HP HT HMod. fix IH 1. intros [a n v|a v|a v n|a al p|a n ty0|a n body].
+    - apply HL. - apply HM. - apply HI. - apply HP. - apply HT.
     - apply HMod. induction body as [|s t IHt]; constructor; [apply IH | exact IHt].
   Qed.
 
@@ -302,7 +307,7 @@ Section StmtRoundTrip.
   (* ---------------- the first token of a statement *)
   Definition kind_toks_head (t : tok) (bare : bool) : Prop :=
     match t with
-    | TAnn | TKw KLet | TKw KImport | TKw KModule => True
+    | TAnn | TKw KLet | TKw KImport | TKw KModule | TKw KType => True
     | _ => starts_elem T t = true /\ bare = true
     end.
 
@@ -321,7 +326,7 @@ Section StmtRoundTrip.
   Proof.
     intros Hw Ho.
     destruct (anns_of s) as [|a0 at0] eqn:Ea.
-    - destruct s as [a n v|a v|a v n|a al p|a n body]; cbn [anns_of] in Ea; subst a;
+    - destruct s as [a n v|a v|a v n|a al p|a n ty0|a n body]; cbn [anns_of] in Ea; subst a;
         try rewrite fmt_stmt_module; cbn [fmt_stmt fmt_anns flat_map app].
       + destruct v; eexists _, _; split; try reflexivity; exact I.
       + cbn [wf_stmt ops_ok_stmt anns_of] in Hw, Ho. bsplit.
@@ -334,8 +339,9 @@ Section StmtRoundTrip.
         destruct k; try exact I; discriminate Hs.
       + eexists _, _; split; [reflexivity | exact I].
       + eexists _, _; split; [reflexivity | exact I].
+      + eexists _, _; split; [reflexivity | exact I].
     - assert (E : exists ts, fmt_stmt F ind s = TAnn :: ts).
-      { destruct s as [a n v|a v|a v n|a al p|a n body]; cbn [anns_of] in Ea; subst a;
+      { destruct s as [a n v|a v|a v n|a al p|a n ty0|a n body]; cbn [anns_of] in Ea; subst a;
           try rewrite fmt_stmt_module; cbn [fmt_stmt fmt_anns flat_map app]; try destruct v; eexists; reflexivity. }
       destruct E as [ts E]. rewrite E. eexists _, _; split; [reflexivity | exact I].
   Qed.
@@ -439,7 +445,7 @@ Section StmtRoundTrip.
 
   Theorem all_stmt_good s : stmt_good s.
   Proof.
-    induction s as [anns n v|anns v|anns v n|anns al p|anns n body IHb] using stmt_ind2;
+    induction s as [anns n v|anns v|anns v n|anns al p|anns n ty0|anns n body IHb] using stmt_ind2;
       intros ind Hw Ho Hk rest [k [r ->]] Hb; cbn [wf_stmt ops_ok_stmt anns_of] in Hw, Ho; bsplit.
     - (* let *)
       destruct v as [v|].
@@ -497,6 +503,14 @@ Section StmtRoundTrip.
         exists g0. intros f m pre Hf Hm Hpre Hne.
         destruct (Hg0 f m pre ltac:(lia) ltac:(lia) Hpre Hne) as [r0 [E0 Es]].
         cbn [fmt_stmt]. rewrite <- !app_assoc. cbn [app] in *. unfold p_stmt. rewrite E0, Es. reflexivity.
+    - (* type definition *)
+      bsplit. destruct (all_good_ty ty0) as [Gt _].
+      destruct (Gt ltac:(assumption) ltac:(apply negb_true_iff; assumption) (TNL k :: r) ltac:(intros _; split; [reflexivity | exact I])) as [g1 Hg1].
+      destruct (stmt_anns ind anns (TKw KType :: TAlias n :: fmt_ty ty0 ++ TNL k :: r) I ltac:(assumption) ltac:(assumption)) as [g0 Hg0].
+      exists (S (g0 + g1)). intros f m pre Hf Hm Hpre Hne.
+      destruct (Hg0 f m pre ltac:(lia) ltac:(lia) Hpre Hne) as [r0 [E0 Es]].
+      cbn [fmt_stmt]. rewrite <- !app_assoc. cbn [app]. unfold p_stmt. rewrite E0, Es.
+      rewrite (Hg1 m ltac:(lia)). reflexivity.
     - (* module *)
       cbn [known_stmt] in Hk. rewrite go_exists_s in Hk. apply orb_false_iff in Hk as [Hka Hkk].
       repeat match goal with H : _ = true |- _ => rewrite go_forall_s in H end.
